@@ -2956,6 +2956,7 @@ class TypeBlocks(ContainerOperand):
                             return sel[i, target_slice.start] # type: ignore
 
                         target_slice = None
+                        target_slice_first = None
                         for target_slice, value in slices_from_targets(
                                 target_index=target_index,
                                 target_values=target_values,
@@ -2965,9 +2966,14 @@ class TypeBlocks(ContainerOperand):
                                 slice_condition=slice_condition
                                 ):
                             assigned[i, target_slice] = value
+                            if target_slice_first is None:
+                                target_slice_first = target_slice
 
                         # update counts from the last slice; this will have already been limited if necessary, but need to reflext contiguous values going into the next block; if slices does not go to edge; will identify as needing as reset
                         if target_slice is not None:
+                            if not directional_forward:
+                                # slices are yielded left to right: going backward, the slice at the exit edge is the first one
+                                target_slice = target_slice_first
                             bridging_count[i] = len(range(*target_slice.indices(length))) # type: ignore
 
                     bridging_values = assigned[:, bridge_src_index]
